@@ -214,69 +214,69 @@ type rtClient struct {
 }
 
 type rtDelivery struct {
-	h         int // -1 = OnNewConfig, -2 = OnWatchedError
-	old, new  string
+	h          int // -1 = OnNewConfig, -2 = OnWatchedError
+	old, new   string
 	oldC, newC *RC
-	err       string
-	step      int
+	err        string
+	step       int
 }
 
 type rtRun struct {
-	c        *Ctx
-	nsrc     int
-	params   dials.Params[RC]
+	c                         *Ctx
+	nsrc                      int
+	params                    dials.Params[RC]
 	skipInit, delay, suppress bool
-	d        *dials.Dials[RC]
-	sources  []*rtSource
-	actors   map[string]*actor
-	amu      sync.Mutex
-	clients  []*rtClient
-	ctxs     map[int]context.Context
-	cancels  map[int]context.CancelFunc
-	rootCancel context.CancelFunc
-	trace    []string // labels executed (model protocol)
-	log      []string // free-form event log
-	lmu      sync.Mutex
-	stepNo   int
+	d                         *dials.Dials[RC]
+	sources                   []*rtSource
+	actors                    map[string]*actor
+	amu                       sync.Mutex
+	clients                   []*rtClient
+	ctxs                      map[int]context.Context
+	cancels                   map[int]context.CancelFunc
+	rootCancel                context.CancelFunc
+	trace                     []string // labels executed (model protocol)
+	log                       []string // free-form event log
+	lmu                       sync.Mutex
+	stepNo                    int
 	// oracle material
-	verifyCalls  []rtVerify
-	enableCalled bool
-	deliveries   []rtDelivery
-	installs     []rtInstall
-	unregDone    map[int]int // handle -> step at which unregister returned true
-	regSerial    map[int]uint64
-	regHasCfg    map[int]bool
-	enableOKStep int
-	panics       []string
-	stuckHandle  int
-	initCfg      string
-	initPtr      *RC
-	hang         string
-	monSkip      bool
-	handleIDs    map[any]int
-	regOrder     []int
-	seenCfgs     []rtObserved
-	inCallback   int
-	mismatch     string
-	configErr    string
-	nextCtx      int
-	nextHandle   int
-	rootCancelled bool
-	kindCount    map[string]int
-	opCount      map[string]int
-	returns      []rtReturn
-	leak         string
-	shutdownOK   bool
-	cfg          rtConfig
-	cbGot        []rtCbGot
-	updates      []*rtUpdate
-	curUpdate    *rtUpdate
-	submits      []rtSubmit
-	maxQueue     int
-	free         atomic.Bool
-	srcErrs      []rtSrcErrGot
+	verifyCalls    []rtVerify
+	enableCalled   bool
+	deliveries     []rtDelivery
+	installs       []rtInstall
+	unregDone      map[int]int // handle -> step at which unregister returned true
+	regSerial      map[int]uint64
+	regHasCfg      map[int]bool
+	enableOKStep   int
+	panics         []string
+	stuckHandle    int
+	initCfg        string
+	initPtr        *RC
+	hang           string
+	monSkip        bool
+	handleIDs      map[any]int
+	regOrder       []int
+	seenCfgs       []rtObserved
+	inCallback     int
+	mismatch       string
+	configErr      string
+	nextCtx        int
+	nextHandle     int
+	rootCancelled  bool
+	kindCount      map[string]int
+	opCount        map[string]int
+	returns        []rtReturn
+	leak           string
+	shutdownOK     bool
+	cfg            rtConfig
+	cbGot          []rtCbGot
+	updates        []*rtUpdate
+	curUpdate      *rtUpdate
+	submits        []rtSubmit
+	maxQueue       int
+	free           atomic.Bool
+	srcErrs        []rtSrcErrGot
 	rootCancelStep int
-	lateResults  []string
+	lateResults    []string
 }
 
 type rtSrcErrGot struct {
